@@ -562,27 +562,34 @@ def modNamedAtoms (ff : FF) (spec : Mol) (targets : List ModTarget) : List Nat :
         (match t.resname with | some rn => attrGet? a.attrs "resname" == some rn | none => true) &&
         (match attrGet? a.attrs "atomname" with | some nm => md.atoms.any (·.1 == nm) | none => false)).map (·.node)
 
-/-- The frame part of C01 on the final molecule: every atom equals the specification except attributes a
-link replaced or atoms a modification names in its target residue; every block interaction whose key no
-link wrote is present exactly as often as the specification has it; every other interaction has a key
-written by a link, or lies between atoms named by a modification, or is a generated exclusion. -/
-def checkFrame (spec obs0 : Mol) (t : Touched) (genExcl : List Ixn) : List String :=
+/-- The frame part of C01 on the final molecule: every atom that no link removed is there and equals the
+specification except attributes a link replaced or atoms a modification names in its target residue;
+every block interaction whose key no link wrote and none of whose atoms was removed is present exactly as
+often as the specification has it; every other interaction has a key written by a link, or lies between
+atoms named by a modification, or is a generated exclusion.  Differences come with a category: `resid`
+(an atom numbered by another residue id), `atom`, `ixn`. -/
+def checkFrame (spec obs0 : Mol) (t : Touched) (genExcl : List Ixn) : List (String × String) :=
   -- generated exclusions (C14) are taken out first, as a multiset
   let obs : Mol := ⟨obs0.atoms, genExcl.foldl List.erase obs0.ixns⟩
-  (if spec.atoms.length ≠ obs.atoms.length then
-    [s!"atom count {obs.atoms.length}, expected {spec.atoms.length}"] else []) ++
-  ((spec.atoms.zip obs.atoms).flatMap fun (s, o) =>
-    (if s.node = o.node ∧ s.resid = o.resid ∧ s.cgrp = o.cgrp then []
-     else [s!"atom {s.node}: node/resid/cgrp {o.node}/{o.resid}/{o.cgrp}, expected {s.node}/{s.resid}/{s.cgrp}"]) ++
-    (if s.node ∈ t.modAtoms then [] else
-      ((s.attrs.map (·.1) ++ o.attrs.map (·.1)).eraseDups.filterMap fun k =>
-        if attrGet? s.attrs k = attrGet? o.attrs k ∨ (s.node, k) ∈ t.attrs then none
-        else some s!"atom {s.node} attribute {k}: {attrGet? o.attrs k}, block has {attrGet? s.attrs k}, no link or modification names it"))) ++
+  (spec.atoms.flatMap fun s =>
+    if s.node ∈ t.removed then
+      (if obs.atoms.any (·.node == s.node) then [("atom", s!"atom {s.node} was removed by a link but is present")] else [])
+    else match obs.atoms.find? (·.node == s.node) with
+      | none => [("atom", s!"atom {s.node} is missing although no link removes it")]
+      | some o =>
+        (if s.resid = o.resid then [] else [("resid", s!"atom {s.node}: resid {o.resid}, expected {s.resid}")]) ++
+        (if s.cgrp = o.cgrp then [] else [("atom", s!"atom {s.node}: charge group {o.cgrp}, expected {s.cgrp}")]) ++
+        (if s.node ∈ t.modAtoms then [] else
+          ((s.attrs.map (·.1) ++ o.attrs.map (·.1)).eraseDups.filterMap fun k =>
+            if attrGet? s.attrs k = attrGet? o.attrs k ∨ (s.node, k) ∈ t.attrs then none
+            else some ("atom", s!"atom {s.node} attribute {k}: {attrGet? o.attrs k}, block has {attrGet? s.attrs k}, no link or modification names it")))) ++
+  (obs.atoms.filterMap fun o =>
+    if spec.atoms.any (·.node == o.node) then none else some ("atom", s!"atom {o.node} is not an atom of any block instance")) ++
   (spec.ixns.eraseDups.filterMap fun i =>
-    if keyOf i ∈ t.keys ∨ countIn i obs.ixns = countIn i spec.ixns then none
-    else some s!"block interaction {i.sect} {i.atoms} {i.params}: {countIn i obs.ixns} times, expected {countIn i spec.ixns}; no link targets it") ++
+    if keyOf i ∈ t.keys ∨ i.atoms.any (· ∈ t.removed) ∨ countIn i obs.ixns = countIn i spec.ixns then none
+    else some ("ixn", s!"block interaction {i.sect} {i.atoms} {i.params}: {countIn i obs.ixns} times, expected {countIn i spec.ixns}; no link targets it")) ++
   (obs.ixns.eraseDups.filterMap fun i =>
     if countIn i spec.ixns > 0 ∨ keyOf i ∈ t.keys ∨ i.atoms.all (· ∈ t.modAtoms) then none
-    else some s!"{i.sect} {i.atoms} {i.params}: neither a block interaction nor targeted by a link or modification")
+    else some ("ixn", s!"{i.sect} {i.atoms} {i.params}: neither a block interaction nor targeted by a link or modification"))
 
 end PolyplyVerif.MapToMol
